@@ -283,6 +283,29 @@ def c08():
         with concurrent.futures.ThreadPoolExecutor(max_workers=vlib.NCPU) as ex:
             for out in ex.map(run_chunk, chunks):
                 cases += out
+        # history independence: the same name-pair queries under two different sets of definitions of the same names, asked in alternation many
+        # times inside ONE process with fresh environments and a collection in between; every distinct result vector is logged as a case
+        hist_pairs = 0
+        pool = [e for e in envs if len(e) == 3 and id(e) not in explicit and all(mode_of(d["t"]) == "rep" for d in e)][:400]
+        w = vlib.Worker(timeout=60)
+        for _ in range(30 if tr == "quick" else 300):
+            if len(pool) < 2:
+                break
+            e1, e2 = rng.sample(pool, 2)
+            names = [{"k": "name", "name": d["name"], "mode": mode_of(d["t"])} for d in e1]
+            names2 = [{"k": "name", "name": d["name"], "mode": mode_of(d["t"])} for d in e2]
+            if names != names2:
+                continue          # (the queries must be the same terms under both sets)
+            qs = [(a, b) for a in names for b in names]
+            r = w.call({"op": "eqseq", "envs": [e1, e2], "queries": [[a, b] for a, b in qs], "rounds": 20})
+            if "vectors" not in r:
+                cases.append({"defs": e1, "queries": [{"a": qs[0][0], "b": qs[0][1], "ret": "hang" if r.get("hang") else "crash", "detail": (r.get("crash") or "")[:200]}], "wfreal": None})
+                continue
+            hist_pairs += 1
+            for defs, vectors in zip((e1, e2), r["vectors"]):
+                for vec in vectors:
+                    cases.append({"defs": defs, "queries": [{"a": a, "b": b, "ret": "true" if x else "false"} for (a, b), x in zip(qs, vec)], "wfreal": None, "history": True})
+        w.stop()
         ncalls = sum(len(c["queries"]) for c in cases)
         # TLC validation of the call log, in parallel chunks
         states = gen = 0
@@ -327,7 +350,7 @@ def c08():
             v.violation("EqualType %s for environment %s" % (kind, type_env_text(case["defs"])), {"case": case}, sig)
         cov = {"states": max(1, states), "transitions": max(1, gen), "traces_validated_against_impl": len(cases) - len([f for f in failures if f[0] == "CaseOK"]),
                "samples": [{"env": type_env_text(c["defs"]), "calls": len(c["queries"])} for c in cases[:4]],
-               "environments": len(cases), "equaltype_calls_logged": ncalls, "shape_sets": {k: len(x) for k, x in sh.items()},
+               "environments": len(cases), "equaltype_calls_logged": ncalls, "history_pairs_alternated_in_one_process": hist_pairs, "shape_sets": {k: len(x) for k, x in sh.items()},
                "theorems_checked_per_environment": ["IsEquivalence", "UnrollInvariant"]}
         vlib.write_evidence("C08", "model_checking", cov, time.time() - t0, len(v.violations),
                             ["environments over at most 3 names built from the shape grammar of TypeEnum.tla (curated + exhaustive 2-name + seeded sample)",
